@@ -70,6 +70,15 @@ type clause struct {
 	alt bool
 }
 
+// is reports whether c and o are one and the same clause of the database.
+// Equal raws don't suffice: the duplicates of a fact of arity 0 are the same atom. Compiled clauses never share their bytecode, though.
+func (c *clause) is(o *clause) bool {
+	if len(c.bytecode) > 0 && len(o.bytecode) > 0 && &c.bytecode[0] != &o.bytecode[0] {
+		return false
+	}
+	return id(c.raw) == id(o.raw)
+}
+
 func compileClause(head Term, body Term, env *Env) (clause, error) {
 	var c clause
 	c.compileHead(head, env)
